@@ -268,6 +268,31 @@ class _AbstractDistribution(metaclass=_ABCMeta):
                 self.upper_bounds[too_high] - coordinates[too_high]
             )
             momentum[too_high] *= -1.0
+        if self.lower_bounds is not None and self.upper_bounds is not None:
+            # A step longer than the box is wide is not back inside after one reflection
+            # per wall (and only a step that overshoots the lower wall was reflected
+            # twice, which made long steps irreversible). The remaining reflections in one
+            # go: the particle has crossed `crossings` walls since the lower bound
+            width = self.upper_bounds - self.lower_bounds
+            outside = (
+                ((coordinates < self.lower_bounds) | (coordinates > self.upper_bounds))
+                & _numpy.isfinite(coordinates)
+                & _numpy.isfinite(width)
+                & (width > 0.0)
+            )
+            if _numpy.any(outside):
+                distance = coordinates[outside] - self.lower_bounds[outside]
+                crossings = _numpy.floor(distance / width[outside])
+                remainder = distance - crossings * width[outside]
+                odd = crossings % 2 != 0
+                coordinates[outside] = _numpy.where(
+                    odd,
+                    self.upper_bounds[outside] - remainder,
+                    self.lower_bounds[outside] + remainder,
+                )
+                momentum[outside] = _numpy.where(
+                    odd, -momentum[outside], momentum[outside]
+                )
 
     def update_bounds(
         self,
@@ -965,20 +990,7 @@ class CompositeDistribution(_AbstractDistribution):
 
         """
         # Start with bounds of CompositeDistribution -----------------------------------
-        if self.lower_bounds is not None:
-            # Lower bound correction
-            too_low = coordinates < self.lower_bounds
-            coordinates[too_low] += 2 * (
-                self.lower_bounds[too_low] - coordinates[too_low]
-            )
-            momentum[too_low] *= -1.0
-        if self.upper_bounds is not None:
-            # Upper bound correction
-            too_high = coordinates > self.upper_bounds
-            coordinates[too_high] += 2 * (
-                self.upper_bounds[too_high] - coordinates[too_high]
-            )
-            momentum[too_high] *= -1.0
+        _AbstractDistribution.corrector(self, coordinates, momentum)
 
         # If they are not set, check subdistributions.
         if self.lower_bounds is None and self.upper_bounds is None:
@@ -1152,20 +1164,7 @@ class AdditiveDistribution(_AbstractDistribution):
 
         """
         # Start with bounds of CompositeDistribution -----------------------------------
-        if self.lower_bounds is not None:
-            # Lower bound correction
-            too_low = coordinates < self.lower_bounds
-            coordinates[too_low] += 2 * (
-                self.lower_bounds[too_low] - coordinates[too_low]
-            )
-            momentum[too_low] *= -1.0
-        if self.upper_bounds is not None:
-            # Upper bound correction
-            too_high = coordinates > self.upper_bounds
-            coordinates[too_high] += 2 * (
-                self.upper_bounds[too_high] - coordinates[too_high]
-            )
-            momentum[too_high] *= -1.0
+        _AbstractDistribution.corrector(self, coordinates, momentum)
 
         # # If they are not set, check subdistributions.
         # if self.lower_bounds is None and self.upper_bounds is None:
